@@ -20,7 +20,7 @@ WORK = os.path.join(VERIF, 'build', 'work')
 
 SAN_ENV = {
     'ASAN_OPTIONS': 'abort_on_error=0:exitcode=97:detect_leaks=0:symbolize=1:allocator_may_return_null=1',
-    'UBSAN_OPTIONS': 'print_stacktrace=1:halt_on_error=1:exitcode=96:symbolize=1',
+    'UBSAN_OPTIONS': 'print_stacktrace=0:halt_on_error=0:symbolize=1',
     'ASAN_SYMBOLIZER_PATH': '/usr/bin/llvm-symbolizer-14',
 }
 
@@ -111,6 +111,25 @@ def classify_crash(returncode, stderr):
 _RESULT_RE = re.compile(r'^RESULT (ok|violated)(?: class=(\S+) op=(-?\d+) msg="(.*)")?$', re.M)
 
 
+IGNORE_UB = []   # set by a check while it triages: UB classes of listed known findings
+
+
+def known_ub_classes(prop):
+    """Current 'ub:<kind>@<file>:<line>' classes of the listed known UB findings (sites are recorded
+    by source text, so line numbers are resolved against the tree being checked)."""
+    out = []
+    for k in load_known().get('findings', []):
+        if k.get('property') != prop or 'site_text' not in k:
+            continue
+        for root, _, files in os.walk(os.path.join(B.repo_src(), 'ace_time')):
+            if k['site_file'] in files:
+                with open(os.path.join(root, k['site_file'])) as f:
+                    for i, l in enumerate(f.read().split('\n')):
+                        if l.strip() == k['site_text']:
+                            out.append('ub:%s@%s:%d' % (k.get('ub_kind', 'signed-integer-overflow'), k['site_file'], i + 1))
+    return out
+
+
 def run_trace(binary, trace_text, timeout=30, want_stats=False):
     os.makedirs(WORK, exist_ok=True)
     fd, path = tempfile.mkstemp(prefix='trace-', suffix='.txt', dir=WORK)
@@ -119,8 +138,11 @@ def run_trace(binary, trace_text, timeout=30, want_stats=False):
             f.write(trace_text)
         cmd = [binary, 'replay', path] + (['--stats'] if want_stats else [])
         try:
+            env = _env()
+            if IGNORE_UB:
+                env['SIM_IGNORE_UB'] = ','.join(IGNORE_UB)
             p = subprocess.run(cmd, stdout=subprocess.PIPE, stderr=subprocess.PIPE, text=True,
-                               timeout=timeout, env=_env(), errors='replace')
+                               timeout=timeout, env=env, errors='replace')
         except subprocess.TimeoutExpired:
             return Outcome('timeout', 'hang', 'no result within %ss' % timeout)
     finally:
@@ -168,6 +190,7 @@ class BatchResult:
         self.samples = []
         self.digests = []
         self.violations = []   # dicts: run, seed, vclass, msg, op, crash(bool)
+        self.ubhits = []       # recoverable UB reports (sanitizer build), first per site per batch
         self.bitmap = 0
         self.bitmap_len = 0
 
@@ -182,6 +205,7 @@ class BatchResult:
             self.samples.extend(st['samples'][:3 - len(self.samples)])
 
 
+_UBHIT_RE = re.compile(r'^UBHIT run=(\d+) seed=(\d+) class=(\S+) file=(\S+) op="(.*)" msg="(.*)"$', re.M)
 _VIOL_RE = re.compile(r'^VIOL run=(\d+) seed=(\d+) class=(\S+) op=(-?\d+) msg="(.*)"$', re.M)
 
 
@@ -190,7 +214,7 @@ def _run_one_batch(binary, profile, verif_seed, start, count, timeout, use_bitma
     """Runs [start, start+count). Survives crashes/hangs of individual runs: the in-flight run is
     identified from the progress file and the batch is resumed after it."""
     os.makedirs(WORK, exist_ok=True)
-    out = {'stats': [], 'viol': [], 'bitmaps': [], 'digest': []}
+    out = {'stats': [], 'viol': [], 'bitmaps': [], 'digest': [], 'ubhits': []}
     pos = start
     end = start + count
     guard = 0
@@ -226,6 +250,11 @@ def _run_one_batch(binary, profile, verif_seed, start, count, timeout, use_bitma
             out['viol'].append({'run': int(m.group(1)), 'seed': int(m.group(2)), 'vclass': m.group(3),
                                 'op': int(m.group(4)),
                                 'msg': m.group(5).encode().decode('unicode_escape'), 'crash': False})
+        for m in _UBHIT_RE.finditer(so):
+            out['ubhits'].append({'run': int(m.group(1)), 'seed': int(m.group(2)), 'vclass': m.group(3),
+                                  'file': m.group(4), 'op_line': m.group(5).encode().decode('unicode_escape'),
+                                  'msg': m.group(6).encode().decode('unicode_escape'), 'op': -1, 'crash': False,
+                                  'ub': True})
         sm = re.search(r'^STATS (.*)$', so, re.M)
         nm = re.search(r'^NEXT (\d+)$', so, re.M)
         if sm and rc == 0:
@@ -299,10 +328,12 @@ def run_batches(binary, profile, verif_seed, total_runs, batch_size, workers=Non
             res.merge_stats(st)
         res.digests.extend(o['digest'])
         res.violations.extend(o['viol'])
+        res.ubhits.extend(o['ubhits'])
         for bm in o['bitmaps']:
             res.bitmap |= int.from_bytes(bm, 'little')
             res.bitmap_len = max(res.bitmap_len, len(bm))
     res.violations.sort(key=lambda v: v['run'])
+    res.ubhits.sort(key=lambda v: v['run'])
     res.skipped_batches = skipped
     return res
 
@@ -428,6 +459,37 @@ def load_known():
             return json.load(f)
     except FileNotFoundError:
         return {'findings': [], 'fixed': []}
+
+
+def source_line(path, line):
+    try:
+        with open(path) as f:
+            ls = f.read().split('\n')
+        return ls[line - 1].strip()
+    except (OSError, IndexError):
+        return ''
+
+
+def match_known_ub(prop, vclass, file_path, op_line):
+    """A known UB finding is identified by its call site (file + the text of the source line, so that
+    it survives line renumbering) and a regex on the op that was executing."""
+    m = re.match(r'ub:(.*)@(.*):(\d+)$', vclass)
+    if not m:
+        return None
+    text = source_line(file_path, int(m.group(3)))
+    for k in load_known().get('findings', []):
+        if k.get('property') != prop or 'site_text' not in k:
+            continue
+        if k.get('ub_kind') and k['ub_kind'] != m.group(1):
+            continue
+        if os.path.basename(file_path) != k.get('site_file'):
+            continue
+        if text != k['site_text']:
+            continue
+        if 'op_regex' in k and not re.search(k['op_regex'], op_line):
+            continue
+        return k
+    return None
 
 
 def match_known(prop, vclass, min_trace, msg):
